@@ -87,6 +87,26 @@ struct OwnF
   int operator()(int a) const { return leaf(f.fid, a); }
 };
 
+// heap object that owns a connection object
+struct CHolder
+{
+  sigc::connection* c;
+  int name;
+  CHolder(sigc::connection* c_, int n) : c(c_), name(n) {}
+  CHolder(const CHolder&) = delete;
+  ~CHolder();
+};
+
+// functor owning, through shared_ptr, a sigc::connection (typically one made from the slot variable that stores
+// this very functor: `s = o; *o.c = sigc::connection(s); o.c.reset();`)
+struct OwnC
+{
+  F f;
+  std::shared_ptr<CHolder> h;
+  OwnC(int fid, std::shared_ptr<CHolder> h_) : f(fid), h(std::move(h_)) {}
+  int operator()(int a) const { return leaf(f.fid, a); }
+};
+
 struct Trk : sigc::trackable
 {
   int run(int a, const F& f) { return leaf(f.fid, a); }
@@ -139,6 +159,7 @@ struct Spec
   int fid = 0;
   int s = -1; // slot name
   int t = -1; // trackable name
+  int c = -1; // connection name
 };
 
 struct Interp
@@ -149,6 +170,7 @@ struct Interp
   std::map<int, long> live;
   std::map<int, long> pin;
   std::map<int, std::weak_ptr<Holder>> holders;
+  std::map<int, std::weak_ptr<CHolder>> cholders;
   std::set<int> snames, tnames, cnames; // every name mentioned (teardown order)
   int depth = 0;
   bool quiet = false;
@@ -203,6 +225,8 @@ struct Interp
       return nat(p[1], sp.fid) && name(p[2], 'S', sp.s);
     if (sp.kind == "nest" && p.size() == 3)
       return nat(p[1], sp.fid) && name(p[2], 'S', sp.s);
+    if (sp.kind == "ownc" && p.size() == 3)
+      return nat(p[1], sp.fid) && name(p[2], 'C', sp.c);
     if (sp.kind == "own" && p.size() == 3)
       return nat(p[1], sp.fid) && name(p[2], 'S', sp.s);
     if (sp.kind == "own" && p.size() == 4)
@@ -223,6 +247,11 @@ struct Interp
       if (f->owner == this && f->target == v && (f->home == nullptr || f->home != own))
         return true;
     return false;
+  }
+  bool cowned(int c) const
+  {
+    auto it = cholders.find(c);
+    return it != cholders.end() && !it->second.expired();
   }
   bool owned(int v) const
   {
@@ -255,6 +284,8 @@ struct Interp
     }
     if (sp.kind == "nest")
       return slots.count(sp.s) ? "" : "dead";
+    if (sp.kind == "ownc")
+      return conns.count(sp.c) ? "" : "dead";
     // own
     if (!slots.count(sp.s))
       return "dead";
@@ -278,6 +309,17 @@ struct Interp
       // offered every free parent_ link of the slot variables it refers to) and dies last.
       SI p(*slots[sp.s]);
       return SI(sigc::bind(F3(sp.fid), p));
+    }
+    if (sp.kind == "ownc")
+    {
+      // share the holder of C (created on first use: the name stays usable, `delC` is refused while a holder exists)
+      std::shared_ptr<CHolder> ch = cholders[sp.c].lock();
+      if (!ch)
+      {
+        ch = std::make_shared<CHolder>(conns[sp.c], sp.c);
+        cholders[sp.c] = ch;
+      }
+      return SI(OwnC(sp.fid, ch));
     }
     // own: share the holder of S' (created on first use)
     std::shared_ptr<Holder> h = holders[sp.s].lock();
@@ -503,6 +545,8 @@ struct Interp
       sigc::connection* c = conns[a];
       if (op == "delC")
       {
+        if (cowned(a))
+          return "owned";
         conns.erase(a);
         delete c;
         return "ok";
@@ -533,6 +577,8 @@ struct Interp
       snames.insert(sp.s);
     if (sp.t >= 0)
       tnames.insert(sp.t);
+    if (sp.c >= 0)
+      cnames.insert(sp.c);
   }
 
   static std::vector<std::string> split(const std::string& line)
@@ -645,6 +691,12 @@ int F3::operator()(int a, SI& s) const
     --g->depth;
   }
   return (fid * 10 + a + r) % 97;
+}
+
+CHolder::~CHolder()
+{
+  g->conns.erase(name);
+  delete c;
 }
 
 Holder::~Holder()
